@@ -162,3 +162,61 @@ M.contract('bridgepoint.interpret.ActionWalker.accept_SelectFromNode', [('self',
                     "(sel_many(self.domain, node.key_letter) if lower(node.cardinality) == 'many' else sel_any(self.domain, node.key_letter)))",
                     'no-child-evaluated': 'self.trace == old(self.trace)'},
            modifies=['self.symtab.installed'])
+
+# ---- statements that act on the population: the model operation performed is recorded as a ghost event of the walker
+M.fields({'Node.key_letter': STR, 'Node.variable_name': STR,
+          'Node.from_variable_name': STR, 'Node.to_variable_name': STR, 'Node.using_variable_name': STR, 'Node.rel_id': VAL, 'Node.phrase': STR,
+          'Node.expression': NODE, 'Node.variable_access': NODE, 'Acc.assigned': SeqT(VAL)})
+M.uninterpreted('lookup', [RefT('SymbolTable'), STR], VAL)
+M.uninterpreted('str_replace_all', [STR, STR, STR], STR)
+EV = "the model operation is abstract here (contracts.c02 / c19 own it): it is recorded with its arguments"
+M.contract('bridgepoint.ooaofooa.Domain.new', [('self', RefT('Domain')), ('kind', STR)], returns=INST, trusted=True, reason=EV,
+           ensures={'a-new-instance': 'result is not None and fresh(result)'}, modifies=[])
+M.contract('bridgepoint.interpret.SymbolTable.find_symbol', [('self', RefT('SymbolTable')), ('name', STR)], returns=VAL, trusted=True,
+           reason='C15 (scoping): the value a name denotes at this point', ensures={'value': 'same(result, lookup(self, name))'}, modifies=[])
+for op in ('relate', 'unrelate'):
+    M.contract('xtuml.meta.' + op, [('a', VAL), ('b', VAL), ('rel_id', VAL), ('phrase', STR, "''")], returns=BOOL, trusted=True, reason=EV,
+               statics={}, ensures={'recorded': 'world().events == old(world().events) + [("%s", a, b, rel_id, phrase)]' % op},
+               modifies=['world().events'])
+M.contract('xtuml.meta.delete', [('instance', VAL)], returns=NONE, trusted=True, reason=EV,
+           ensures={'recorded': 'world().deleted == old(world().deleted) + [instance]'}, modifies=['world().deleted'])
+M.fields({'World.events': SeqT(TupT(STR, VAL, VAL, VAL, STR)), 'World.deleted': SeqT(VAL)})
+M.contract('builtins.Acc.fset', [('self', ACC), ('value', VAL)], returns=NONE, trusted=True, reason='setter of the returned property object',
+           ensures={'recorded': 'self.assigned == old(self.assigned) + [value]'}, modifies=['self.assigned'])
+SREQ = {'walker': 'node is not None and self.symtab is not None and self.domain is not None'}
+M.spec('''
+def unquoted(p):
+    return str_replace_all(p, "'", '')
+''')
+M.contract('bridgepoint.interpret.ActionWalker.accept_CreateObjectNode', [('self', W), ('node', NODE)], returns=NONE, requires=SREQ,
+           ensures={'a-new-instance-bound-to-the-variable':
+                    'len(self.symtab.installed) == len(old(self.symtab.installed)) + 1 and self.symtab.installed[len(old(self.symtab.installed))][0] == node.variable_name '
+                    'and is_ref(self.symtab.installed[len(old(self.symtab.installed))][1]) and fresh(as_ref(self.symtab.installed[len(old(self.symtab.installed))][1]))',
+                    'nothing-else': 'self.trace == old(self.trace) and world().events == old(world().events)'},
+           modifies=['self.symtab.installed'])
+M.contract('bridgepoint.interpret.ActionWalker.accept_DeleteNode', [('self', W), ('node', NODE)], returns=NONE, requires=SREQ,
+           ensures={'deletes-what-the-variable-denotes': 'world().deleted == old(world().deleted) + [lookup(self.symtab, node.variable_name)]',
+                    'nothing-else': 'self.trace == old(self.trace) and self.symtab.installed == old(self.symtab.installed) and world().events == old(world().events)'},
+           modifies=['world().deleted'])
+for h, op in (('accept_RelateNode', 'relate'), ('accept_UnrelateNode', 'unrelate')):
+    M.contract('bridgepoint.interpret.ActionWalker.' + h, [('self', W), ('node', NODE)], returns=NONE, requires=SREQ,
+               ensures={'one-%s-of-the-two-variables-across-the-association' % op:
+                        'world().events == old(world().events) + [("%s", lookup(self.symtab, node.from_variable_name), lookup(self.symtab, node.to_variable_name), '
+                        'node.rel_id, unquoted(node.phrase))]' % op,
+                        'nothing-else': 'self.trace == old(self.trace) and self.symtab.installed == old(self.symtab.installed)'},
+               modifies=['world().events'])
+for h, op in (('accept_RelateUsingNode', 'relate'), ('accept_UnrelateUsingNode', 'unrelate')):
+    M.contract('bridgepoint.interpret.ActionWalker.' + h, [('self', W), ('node', NODE)], returns=NONE, requires=SREQ,
+               ensures={'both-halves-through-the-link-instance':
+                        'world().events == old(world().events) + [("%s", lookup(self.symtab, node.from_variable_name), lookup(self.symtab, node.using_variable_name), '
+                        'node.rel_id, unquoted(node.phrase)), ("%s", lookup(self.symtab, node.using_variable_name), lookup(self.symtab, node.to_variable_name), '
+                        'node.rel_id, unquoted(node.phrase))]' % (op, op),
+                        'nothing-else': 'self.trace == old(self.trace) and self.symtab.installed == old(self.symtab.installed)'},
+               modifies=['world().events'])
+M.contract('bridgepoint.interpret.ActionWalker.accept_AssignmentNode', [('self', W), ('node', NODE)], returns=NONE,
+           lets={'n': 'len(self.trace)'},
+           requires={'walker': 'node is not None and node.expression is not None and node.variable_access is not None'},
+           ensures={'right-side-first-then-the-target': 'self.trace == old(self.trace) + [node.expression, node.variable_access]',
+                    'the-target-receives-the-value-of-the-right-side':
+                    'any(r is not None and len(r.assigned) == len(old(r.assigned)) + 1 and same(r.assigned[len(r.assigned) - 1], evalv(node.expression, n)) for r in anyref("Acc"))'},
+           modifies=['self.trace', 'Acc.fgetv', 'Acc.truth', 'Acc.assigned'])
